@@ -195,6 +195,7 @@ def run_histories(ctx, nhist):
         stats["oracle_gap_skipped"] += info["gap_skipped"]
         stats["oracle_tie_accepted"] += info["tie_accepted"]
         stats["oracle_premise_skipped_segments"] += info["premise_skipped"]
+        stats["oracle_absolute_rcond_skipped_steps"] += info["rcond_skipped"]
         if msg:
             C.report_violation(ctx, "C07 fails on the implementation (history on one estimator object): " + msg,
                                dict(case=c, observed=hslim(r)), found_input=True)
